@@ -881,7 +881,10 @@ ParBSRMatrix* ParCSRMatrix::to_ParBSR(const int block_row_size, const int block_
     int global_block_rows = global_num_rows / block_row_size;
     int global_block_cols = global_num_cols / block_col_size;
     ParBSRMatrix* A = new ParBSRMatrix(global_block_rows, global_block_cols,
-            block_row_size, block_col_size);
+            local_num_rows / block_row_size, on_proc_num_cols / block_col_size,
+            partition->first_local_row / block_row_size,
+            partition->first_local_col / block_col_size,
+            block_row_size, block_col_size, partition->topology);
 
     // Get local to global mappings for block matrix
     prev_row = -1;
